@@ -85,9 +85,16 @@ def scan_balance(ctx, key, paths, body, param, succ, fail, all_returns=None):
 
     def zero(c):
         """True / False if the condition says the depth is zero / non-zero, else None"""
+        t = c.term
+        if depth is not None and isinstance(t, tuple) and t[0] == "discr" and _checked_dec(strip_refs(t[1])):
+            # depth.checked_sub(1) is None exactly at depth 0 (an unsigned counter)
+            if c.fact == ("eq", 0) or (c.fact[0] == "ne" and 1 in c.fact[1] and 0 not in c.fact[1]):
+                return True
+            if c.fact == ("eq", 1) or (c.fact[0] == "ne" and 0 in c.fact[1] and 1 not in c.fact[1]):
+                return False
+            return None
         if depth is None or not isinstance(c.fact[1], bool):
             return None
-        t = c.term
         if depth[0] == "stack":
             if is_call(t, "Vec::is_empty") and isinstance(strip_refs(call_args(t)[0]), tuple) and strip_refs(call_args(t)[0])[1:2] == (depth[1],):
                 return c.fact[1]
@@ -102,6 +109,11 @@ def scan_balance(ctx, key, paths, body, param, succ, fail, all_returns=None):
                 return not c.fact[1]
         return None
 
+    def _checked_dec(x):
+        return depth is not None and depth[0] == "counter" and is_call(x, "::checked_sub") and len(call_args(x)) == 2 and const_int(call_args(x)[1]) == 1 \
+            and isinstance(strip_refs(call_args(x)[0]), tuple) and strip_refs(call_args(x)[0])[0] == "havoc" and strip_refs(call_args(x)[0])[1] == depth[1] \
+            and body.f["locals"][depth[1]]["ty"].startswith("u")
+
     def effect(p):
         if depth is None:
             return "?"
@@ -112,6 +124,8 @@ def scan_balance(ctx, key, paths, body, param, succ, fail, all_returns=None):
         v = p.env.get(depth[1])
         if isinstance(v, tuple) and v[0] == "havoc" and v[1] == depth[1]:
             return "none"
+        if isinstance(v, tuple) and len(v) > 2 and v[0] == "field" and v[2] == 0 and isinstance(v[1], tuple) and v[1][0] == "downcast" and v[1][2] == "Some" and _checked_dec(strip_refs(v[1][1])):
+            return "dec"            # depth = depth.checked_sub(1)? : one level up, only possible when not at depth 0
         if isinstance(v, tuple) and v[0] == "binop" and v[1] in ("Add", "Sub") and isinstance(v[2], tuple) and v[2][0] == "havoc" and v[2][1] == depth[1] and const_int(v[3]) == 1:
             return "inc" if v[1] == "Add" else "dec"
         return "other"
